@@ -15,7 +15,7 @@ func (e *Engine) newUnit(pi *pkgInfo, b *Block, decl *ast.FuncDecl, lit *ast.Fun
 		name: shortPkg(pi.pkg.PkgPath) + "." + b.Key, decl: decl, lit: lit,
 		boxed: map[types.Object]T{}, assumptions: map[string]bool{}, libUsed: map[string]bool{},
 		calleesUsed: map[string]bool{}, oblNames: map[string]int{}, atSeen: map[int]int{}, callOrd: map[string]int{},
-		unitNames: map[string]Val{},
+		unitNames: map[string]Val{}, closureBlocks: map[string]*Block{},
 	}
 	return x
 }
@@ -131,6 +131,9 @@ func (x *Unit) run() {
 	for _, cl := range x.block.ClausesOf("requires") {
 		x.assume(st, x.specEval(st, cl.Expr, c).T)
 	}
+	for _, cl := range x.block.ClausesOf("captures") {
+		x.assume(st, x.specEval(st, cl.Expr, c).T)
+	}
 	for _, cl := range x.block.ClausesOf("env") {
 		x.assume(st, x.specEval(st, cl.Expr, c).T)
 		x.note("environment assumption in " + x.name + ": " + cl.Text)
@@ -158,6 +161,9 @@ func (x *Unit) run() {
 		can.WantSat = true
 		can.Kind = "canary"
 		ec := x.contractCtx(ret, fr)
+		for _, cl := range x.block.ClausesOf("let") {
+			ec.names[cl.GhostName] = x.specEval(ret, cl.Expr, ec)
+		}
 		for i, cl := range x.block.ClausesOf("ensures") {
 			g := x.specEval(ret, cl.Expr, ec)
 			x.oblige(ret, "ensures", clauseLabel(cl, i), g.T, nil)
@@ -278,7 +284,7 @@ func (x *Unit) frameCheck(ret *State, ec *specCtx) {
 			continue
 		}
 		r := x.fresh("frameref", SInt)
-		goal := Imp(And(Cmp(">=", r, IntLit(0)), Cmp("<=", r, x.entry.alloc)), Eq(Select(h, r), Select(want, r)))
+		goal := Imp(And(Cmp(">", r, IntLit(0)), Cmp("<=", x.proot(r), x.entry.alloc)), Eq(Select(h, r), Select(want, r)))
 		x.oblige(ret, "frame", k, goal, nil)
 	}
 	for _, k := range sortedKeys(ret.ghost) {
